@@ -6,6 +6,8 @@
             level 1: the chain is coherent under the spec's hash model and equals
             ModelChain(description) (validator priorities and block sizes masked).
    Served : an inclusion proof served by rpc/core Tx / TxSearch       -> ServedProofsVerify
+   Search : one TxSearch(prove) over a height range (order, page, per_page), every result
+            with its proof                                              -> ServedProofsVerify
    Call   : one call of a verifying-client method.  sent = what `next` (or the light
             client's primary) answered, got = what the caller received, trusted = the light
             client's store afterwards.
@@ -45,6 +47,30 @@ StepServed(e) ==
 StepServedErr(e) ==
   /\ viol' = viol \cup {[l |-> l, inv |-> "ServedProofsVerify", class |-> e.via \o ":error", scope |-> "statement"]}
   /\ UNCHANGED <<C, D, drift>>
+
+\* a TxSearch(prove) answered by the real rpc/core handler (through the pass-through client)
+StepSearch(e) ==
+  LET r     == ServeSearch(C, e.a)
+      multi == Cardinality({e.txs[k].h : k \in 1..Len(e.txs)}) > 1
+      ordn  == IF e.a.ord = "desc" THEN "desc" ELSE "asc"
+      bad   == {k \in 1..Len(e.txs) : ~e.txs[k].validate_ok \/ ~SearchItemOK(C, e.txs[k])}
+  IN
+  /\ drift' = drift
+       \cup FailIf(r.ok # e.ok, [l |-> l, what |-> "TxSearch outcome differs from spec"])
+       \cup FailIf(IF r.ok /\ e.ok THEN [k \in 1..Len(e.txs) |-> [h |-> e.txs[k].h, i |-> e.txs[k].i, tx |-> e.txs[k].tx,
+                                                                hash |-> e.txs[k].hash, proof |-> e.txs[k].proof]] # r.txs
+                                     \/ e.total # r.total ELSE FALSE,
+                   [l |-> l, what |-> "TxSearch page differs from spec"])
+       \cup FailIf(\E k \in 1..Len(e.txs) : e.txs[k].h \in 1..C.tip /\
+                      TxProofValidate(e.txs[k].proof, C.blocks[e.txs[k].h].header.dh) # e.txs[k].validate_ok,
+                   [l |-> l, what |-> "TxProof.Validate differs from spec"])
+  /\ viol' = viol
+       \cup FailIf(ValidSearch(C, e.a) /\ ~e.ok,
+                   [l |-> l, inv |-> "ServedProofsVerify", scope |-> "statement", class |-> "TxSearch:" \o ordn \o ":error"])
+       \cup FailIf(bad # {},
+                   [l |-> l, inv |-> "ServedProofsVerify", scope |-> "statement",
+                    class |-> "TxSearch:" \o ordn \o (IF multi THEN ":multi_height_page" ELSE ":single_height_page")])
+  /\ UNCHANGED <<C, D>>
 
 Star(p) == [i \in 1..Len(p) |-> IF p[i] \in DOMAIN IdxOf THEN "*" ELSE p[i]]
 \* e.changed: the answer that reached the client differs from the honest one
@@ -88,6 +114,7 @@ Step ==
          [] e.ev = "Served"    -> StepServed(e)
          [] e.ev = "ServedErr" -> StepServedErr(e)
          [] e.ev = "Call"      -> StepCall(e)
+         [] e.ev = "Search"    -> StepSearch(e)
   /\ l' = l + 1
 
 Finish ==
